@@ -11,8 +11,9 @@ CHECKS = {
     "C04": ("model_checking",
             "TLC checks the detailed model L1 (spec/Layout.tla, Kanata.tla, constants from the real parser's dump) "
             "against the abstract layered-keymap model P_C04 for all histories within the instance bounds; every model "
-            "transition is replayed on the real code (edge cover, zero drift required for the claim); random histories "
-            "beyond the bounds are recorded from the real code and validated by TLC against P_C04.",
+            "transition is replayed on the real code (edge cover, zero drift required for the claim); the family includes two keys "
+            "holding one layer and keys outside defsrc with process-/block-unmapped-keys; random histories beyond the bounds are recorded "
+            "from the real code and validated by TLC against P_C04 (which stops judging once 32 events are pending, as the statement does).",
             "5 C04", TECH, BOUNDS),
     "C05": ("model_checking",
             "TLC checks L1 against the tap-hold monitor P_C05 (exclusivity, documented decision rules with exact ticks in the "
@@ -22,10 +23,12 @@ CHECKS = {
             "5 C05", TECH, BOUNDS),
     "C06": ("model_checking",
             "TLC checks L1 against the one-shot monitor P_C06 (second key never modified / nothing modified after the first "
-            "release / pcancel ends all / exact expiry tick and next-key modification in the sharp zone / never lingers) for "
-            "every schedule within the instance bounds per end-variant, timeout, rapid-event-delay, key or output-chord, 1-2 "
-            "one-shot keys; edge-cover replay binds L1 to the code; random schedules and a 20-fold stacked burst are recorded "
-            "from the code and validated by TLC against P_C06.",
+            "release / pcancel ends all / exact expiry tick and next-key modification in the sharp zone, also for release variants "
+            "(O2m) / a held one-shot key keeps its output (O5) / the timeout in force is the one of the key tapped last / never lingers) "
+            "for every schedule within the instance bounds per end-variant, timeout, rapid-event-delay, key or output-chord, 1-2 "
+            "one-shot keys with equal or different timeouts; edge-cover replay binds L1 to the code; random schedules, directed "
+            "multi-step scenarios at realistic timeouts (40 / 60+20) and a 20-fold stacked burst are recorded from the code and "
+            "validated by TLC against P_C06.",
             "5 C06", TECH, BOUNDS + "; one-shot stack bounded to 3 in the exhaustive instances"),
     "C01": ("model_checking",
             "TLC checks L1 (Layout.tla, Kanata.tla) composed with the monitor P_C01 (R2: once no physical key is down and the last input "
@@ -55,7 +58,9 @@ CHECKS = {
             "profile; inputs restricted to mapped codes; 2 s per-step watchdog confirmed by a second run; cmd/clipboard/push-msg/lrld-file excluded"),
     "C03": ("exploration",
             "TLC enumerates structure-aware mutations of a seed corpus of real configurations (spec/CfgMutate.tla: all single "
-            "mutations at all sites, bounded double mutations) and a grammar sweep (spec/CfgGrammar.tla), and states the allowed "
+            "mutations at all sites, bounded double mutations), a grammar sweep (spec/CfgGrammar.tla), name-resolution graphs for variables, "
+            "aliases and templates (spec/CfgRefs.tla, spec/CfgTemplates.tla) and every capacity boundary the parser enforces at limit-1 .. "
+            "limit+2 (spec/CfgCaps.tla), and states the allowed "
             "outcome relation (spec/CfgOutcome.tla: Ok, or an error whose span lies inside the file it names and whose rendering "
             "succeeds); every text is executed on the real loader in watched worker subprocesses (panic, stack overflow, abort or "
             "timeout = violation) and the recorded outcome tuples are judged by TLC. Sub-claim at model-checking level: the "
@@ -64,7 +69,7 @@ CHECKS = {
             "5 C03", "TLC-enumerated input space + outcome relation judged by TLC over results recorded from the real parser; "
             "TLC model of the lexer with exhaustive conformance on short strings",
             "exploration over texts (no proof over all texts); seed corpus = cfg_samples, docs, parser tests; 12-symbol lexer alphabet; "
-            "3 s watchdog per text; dev-profile build"),
+            "3 s watchdog per text; dev-profile build; a known finding covers only its own input class; very large boundary texts in the thorough tier only"),
     "C07": ("model_checking",
             "Part 1: TLC checks the invariant IdleTickIsStutter (where can_block holds a tick emits nothing and is a stutter on everything "
             "that can influence the future) on L1 instances, one per time-driven field of is_idle / can_block, every transition replayed "
@@ -113,8 +118,11 @@ CHECKS = {
     "C11": ("model_checking",
             "TLC checks spec/KeyTables.tla over constants generated from the working tree at check time (discriminant sets of KeyCode "
             "and OsCode parsed from the source, from_u16/as_u16 called for all 65536 values, every key name resolved by the real "
-            "str_to_oscode): equal code spaces, round trips, functional names, reserved no-op codes. Every code is pressed and "
-            "released through the real stepper under identity configurations and the traces are validated by TLC against P_C11; "
+            "str_to_oscode; every name observed through the real parser in 18 configuration positions under no / redefining / new "
+            "deflocalkeys blocks): equal code spaces, round trips, a name's code a function of (name, block) only, reserved no-op "
+            "codes. Every code is pressed, repeated and released through the real stepper under identity configurations, and a nop key "
+            "is sent down every output path (macro, tap-hold, one-shot, chords, overrides, sequences, dynamic macro, zippy ...); the "
+            "traces are validated by TLC against P_C11; "
             "random defsrc / deflayermap / process-unmapped-keys lists: the real parser's mapped_keys is compared by TLC with "
             "P_C11.Intercept computed from the text.",
             "5 C11", "TLC over tables extracted from the code (exhaustive) + TLC trace validation of the identity pipeline",
@@ -136,8 +144,9 @@ CHECKS = {
             "against the relation P_C13.Allowed written from the statement; the real Overrides::override_keys is called on every "
             "exported case and compared (zero drift); results on tables over all 8 modifiers are judged by TLC; pipeline instances "
             "(defoverrides + plain keys) are model-checked L1 || P_C13 with edge-cover replay, and random histories are recorded "
-            "from the real stepper and validated by TLC against the monitor (substituted set while held, outputs released and "
-            "modifiers back when the combination ends).",
+            "from the real stepper - ticking and blocking (no tick after a may-block decision) - and validated by TLC against the "
+            "monitor (substituted set while held, outputs released and modifiers back when the combination ends, nothing owed when the "
+            "loop may block (O5), OS repeats forwarded for the key the OS sees down).",
             "5 C13", TECH, BOUNDS + "; tables of <= 3 overrides over 2 keys and 3 of the 8 modifiers in the exhaustive part"),
     "C14": ("model_checking",
             "TLC checks L1 (Kanata.tla + KeyRepeat.tla: the KeyOutputs collection over the action algebra and handle_repeat driven by "
@@ -188,9 +197,10 @@ CHECKS = {
             "TLC checks L1 against the tap-dance monitor P_C17 (group-wise accounting of every typed tap: no tap swallowed, no "
             "action for taps not typed; in the sharp zone the exact resolution tick and the exact action for the number of taps "
             "counted, window restart, interruption by another key, list exhaustion, action held until the final release; eager "
-            "form: each tap performs its own action at once) for every schedule within the instance bounds; edge-cover replay "
-            "binds L1 to the code; model-level counterexamples and random schedules are recorded from the code and validated by "
-            "TLC against P_C17.",
+            "form: each tap performs its own action at once, past the end of the list a new dance starts) for every schedule within the "
+            "instance bounds with one or two tap-dance keys (eager+eager, eager+lazy, lazy+lazy), eager successions to list length + 2; "
+            "edge-cover replay binds L1 to the code; model-level counterexamples, TLC-enumerated class witnesses and random schedules are "
+            "recorded from the code and validated by TLC against P_C17.",
             "5 C17", TECH, BOUNDS + "; histories with more than list-length+1 unconsumed taps are not expanded"),
     "C19": ("model_checking",
             "TLC checks the detailed model L1 (spec/Kanata.tla + spec/DynMacro.tla: record with the one-event lag, stop/truncate, "
